@@ -94,7 +94,7 @@ def finish(rep, t0, seed, replay_only=False):
     for o, k in knownhits:
         print('KNOWN-FINDING: property=%s %s %s [%s] %s: %s' % (rep.pid, o['rule'], o['function'], o['role'],
                                                                o['where'], k.get('what', o['detail'])))
-    rdir = os.path.join(VERIF, 'evidence', 'replay')
+    rdir = os.path.join(os.environ.get('VERIF_EVIDENCE_DIR') or os.path.join(VERIF, 'evidence'), 'replay')
     os.makedirs(rdir, exist_ok=True)
     for i, o in enumerate(viol):
         rp = os.path.join(rdir, '%s-%d.json' % (rep.pid, i))
@@ -157,8 +157,9 @@ def finish(rep, t0, seed, replay_only=False):
     }
     ev['coverage'].update(rep.extra)
     if not replay_only:
-        os.makedirs(os.path.join(VERIF, 'evidence'), exist_ok=True)
-        with open(os.path.join(VERIF, 'evidence', rep.pid + '.json'), 'w') as fh:
+        edir = os.environ.get('VERIF_EVIDENCE_DIR') or os.path.join(VERIF, 'evidence')
+        os.makedirs(edir, exist_ok=True)
+        with open(os.path.join(edir, rep.pid + '.json'), 'w') as fh:
             json.dump(ev, fh, indent=1)
     nd = len(rep.not_decided)
     print('%s [%s]: %d obligations, %d discharged, %d known findings, %d violations, %d listed-not-decided; '
